@@ -94,10 +94,15 @@ inductive Src where
   | agg | sync
   deriving DecidableEq, Repr
 
+/-- a PublicRand call blocked on the next beacon; `proxy`: it came through `drandProxy.Get` -/
 structure Waiter where
-  via : Via
+  proxy : Bool
   wanted : Nat
   deriving Repr
+
+def viaOfRand (proxy : Bool) : Via := if proxy then .proxyGet else .publicRand
+/-- `pub`: PublicRandStream (through `proxyStream`), otherwise the peer protocol's SyncChain -/
+def viaOfStream (pub : Bool) : Via := if pub then .publicStream else .syncChain
 
 structure Node where
   chained : Bool
@@ -112,17 +117,18 @@ structure Node where
   aggLast : Option Beacon            -- the aggregator's `lastBeacon` (nil until the first partial)
   cache : Cache                      -- the aggregator's partial cache
   waiters : List Waiter              -- PublicRand calls waiting for the next beacon
-  streams : List (Via × Nat)         -- live SyncChain / PublicRandStream callbacks
+  streams : List (Bool × Nat)        -- live SyncChain (false) / PublicRandStream (true) callbacks, with their start round
   -- ghost state: what was written and what was served
   puts : List (Src × Beacon)
   served : List Served
   syncReqs : List Nat
+  seen : List GroupView              -- every group view that has been live
   deriving Repr
 
 def Node.init (chained : Bool) (sigLen : Nat) (addr : String) (chainKey : Nat) (g : GroupView) (seed : Bytes) : Node :=
   { chained, sigLen, addr, chainKey, group := g, nextRound := 0, stack := Stack.init chained seed,
     newPartials := [], storedQ := [], aggLast := none, cache := Cache.empty sigLen, waiters := [], streams := [],
-    puts := [], served := [], syncReqs := [] }
+    puts := [], served := [], syncReqs := [], seen := [g] }
 
 /-- `h.chain.Last` / `store.Last` -/
 def Node.last (s : Node) : Beacon := Stack.last s.stack.base
@@ -130,15 +136,15 @@ def Node.last (s : Node) : Beacon := Stack.last s.stack.base
 /-! ### the one write path: `callbackStore.Put` on top of the stack -/
 
 /-- what a stream exit attaches: `proxyStream.Send` sets the randomness, the peer protocol does not carry one -/
-def streamItem (c : Crypto) (b : Beacon) (st : Via × Nat) : Served :=
-  ⟨st.1, st.2, b, if st.1 = Via.publicStream then some (c.rhash b.sig) else none⟩
+def streamItem (c : Crypto) (b : Beacon) (st : Bool × Nat) : Served :=
+  ⟨viaOfStream st.1, st.2, b, if st.1 then some (c.rhash b.sig) else none⟩
 
 /-- the callbacks that run after a successful Put: waiting PublicRand calls are released (each callback removes
 itself after one execution; it answers only if the round is the wanted one), live streams get the beacon -/
 def Node.notify (c : Crypto) (s : Node) (b : Beacon) : Node :=
   let rel := s.waiters.filterMap fun w =>
     if b.round = w.wanted then
-      some (⟨w.via, w.wanted, b, if w.via = Via.proxyGet then some (c.rhash b.sig) else none⟩ : Served)
+      some (⟨viaOfRand w.proxy, w.wanted, b, if w.proxy then some (c.rhash b.sig) else none⟩ : Served)
     else none
   { s with waiters := [], served := s.served ++ rel ++ s.streams.map (streamItem c b) }
 
@@ -238,36 +244,53 @@ def tryAppendSteps : List Gen.BeaconNode.Step := [
 /-- `shouldSync` -/
 def shouldSync (last nb : Beacon) : Bool := nb.round > last.round + 1
 
+/-- outcome of the checks of one aggregator iteration that precede `FlushRounds` and `tryAppend` -/
+inductive AggPre where
+  | ignored | appendErr | noRoundCache | belowThr | recoverFailed | invalidSig
+  | candidate (rc : RoundCache) (sig : Bytes)
+  deriving DecidableEq, Repr
+
+/-- the iteration up to and including `VerifyRecovered`: the cache after `Append`, and the verdict -/
+def aggCheck (c : Crypto) (chained : Bool) (g : GroupView) (cache : Cache) (last : Beacon) (p : Partial) : Cache × AggPre :=
+  let isNotInPast := decide (p.round > last.round)
+  let isNotTooFar := decide (p.round ≤ last.round + Gen.partialCacheStoreLimit + 1)
+  if !(isNotInPast && isNotTooFar) then (cache, .ignored) else
+  let thr := g.thr
+  let n := g.n
+  match cache.append p with
+  | (cache', .ok) =>
+    match aget (p.round, p.prev) cache'.rounds with
+    | none => (cache', .noRoundCache)
+    | some rc =>
+      if rc.sigs.length < thr then (cache', .belowThr) else
+      let msg := digest c chained rc.round rc.prev
+      match c.recover g.poly msg (rc.sigs.map (·.2)) thr n with
+      | none => (cache', .recoverFailed)
+      | some finalSig =>
+        if !c.verifyRecovered (c.commit g.poly) msg finalSig then (cache', .invalidSig)
+        else (cache', .candidate rc finalSig)
+  | (cache', _) => (cache', .appendErr)
+
 /-- one iteration of `case partial := <-c.newPartials` -/
 def aggOne (c : Crypto) (s : Node) (p : Partial) : Node × AggRes :=
   -- lastBeacon is loaded lazily
   let last := match s.aggLast with | some b => b | none => s.last
   let s := { s with aggLast := some last }
-  let isNotInPast := decide (p.round > last.round)
-  let isNotTooFar := decide (p.round ≤ last.round + Gen.partialCacheStoreLimit + 1)
-  if !(isNotInPast && isNotTooFar) then (s, .ignored) else
-  let thr := s.group.thr
-  let n := s.group.n
-  match s.cache.append p with
-  | (cache', .ok) =>
-    let s := { s with cache := cache' }
-    match aget (p.round, p.prev) cache'.rounds with
-    | none => (s, .noRoundCache)
-    | some rc =>
-      if rc.sigs.length < thr then (s, .belowThr) else
-      let msg := digest c s.chained rc.round rc.prev
-      match c.recover s.group.poly msg (rc.sigs.map (·.2)) thr n with
-      | none => (s, .recoverFailed)
-      | some finalSig =>
-        if !c.verifyRecovered (c.commit s.group.poly) msg finalSig then (s, .invalidSig) else
-        let s := { s with cache := s.cache.flush p.round }
-        let nb : Beacon := ⟨rc.round, finalSig, rc.prev⟩
-        match tryAppend c s last nb with
-        | (s', true) => ({ s' with aggLast := some nb }, .appended nb)
-        | (s', false) =>
-          if shouldSync last nb then ({ s' with syncReqs := s'.syncReqs ++ [nb.round] }, .notAppendable nb true)
-          else (s', .notAppendable nb false)
-  | (cache', _) => ({ s with cache := cache' }, .appendErr)
+  match aggCheck c s.chained s.group s.cache last p with
+  | (cache', .candidate rc finalSig) =>
+    let s := { s with cache := cache'.flush p.round }
+    let nb : Beacon := ⟨rc.round, finalSig, rc.prev⟩
+    match tryAppend c s last nb with
+    | (s', true) => ({ s' with aggLast := some nb }, .appended nb)
+    | (s', false) =>
+      if shouldSync last nb then ({ s' with syncReqs := s'.syncReqs ++ [nb.round] }, .notAppendable nb true)
+      else (s', .notAppendable nb false)
+  | (cache', .ignored) => ({ s with cache := cache' }, .ignored)
+  | (cache', .appendErr) => ({ s with cache := cache' }, .appendErr)
+  | (cache', .noRoundCache) => ({ s with cache := cache' }, .noRoundCache)
+  | (cache', .belowThr) => ({ s with cache := cache' }, .belowThr)
+  | (cache', .recoverFailed) => ({ s with cache := cache' }, .recoverFailed)
+  | (cache', .invalidSig) => ({ s with cache := cache' }, .invalidSig)
 
 def aggregatorPartialSteps : List Gen.BeaconNode.Step := [
   .bind "var err error",
@@ -352,18 +375,18 @@ inductive PubRes where
   | waiting            -- callback registered; answered by `Node.notify` or dropped by `waiterTimeout`
   deriving Repr
 
-/-- `BeaconProcess.PublicRand(round)`; `via = proxyGet` is `drandProxy.Get`, which adds the randomness -/
-def publicRand (c : Crypto) (s : Node) (via : Via) (wanted : Nat) : Node × PubRes :=
+/-- `BeaconProcess.PublicRand(round)`; with `proxy` it is `drandProxy.Get`, which adds the randomness -/
+def publicRand (c : Crypto) (s : Node) (proxy : Bool) (wanted : Nat) : Node × PubRes :=
   let last := s.last
   if wanted = last.round + 1 then
-    ({ s with waiters := s.waiters ++ [⟨via, wanted⟩] }, .waiting)
+    ({ s with waiters := s.waiters ++ [⟨proxy, wanted⟩] }, .waiting)
   else
     let r : Read := if wanted > 0 then Bolt.get s.stack.base wanted else .ok last
     match r with
     | .noBeacon => (s, .err)
     | .ok b =>
-      let rnd := if via = Via.proxyGet then some (c.rhash b.sig) else none
-      ({ s with served := s.served ++ [⟨via, wanted, b, rnd⟩] }, .ok b rnd)
+      let rnd := if proxy then some (c.rhash b.sig) else none
+      ({ s with served := s.served ++ [⟨viaOfRand proxy, wanted, b, rnd⟩] }, .ok b rnd)
 
 def publicRandSteps : List Gen.BeaconNode.Step := [
   .bind "var addr=net.RemoteAddress(ctx)",
@@ -386,10 +409,10 @@ inductive ServeRes where
   deriving Repr
 
 /-- `SyncChain(req.from, stream)` (peer protocol) / `PublicRandStream` (via `proxyStream`): scan, then go live -/
-def syncServe (c : Crypto) (s : Node) (via : Via) (from_ : Nat) : Node × ServeRes :=
+def syncServe (c : Crypto) (s : Node) (pub : Bool) (from_ : Nat) : Node × ServeRes :=
   if s.last.round < from_ then (s, .tooFar) else
   let bs := if from_ ≠ 0 then scanFrom s.stack.base from_ else []
-  ({ s with served := s.served ++ bs.map (fun b => streamItem c b (via, from_)), streams := s.streams ++ [(via, from_)] }, .sent bs)
+  ({ s with served := s.served ++ bs.map (fun b => streamItem c b (pub, from_)), streams := s.streams ++ [(pub, from_)] }, .sent bs)
 
 /-! ### events -/
 
@@ -402,14 +425,14 @@ inductive Ev where
   | aggStored
   | swapStored                              -- two concurrent Puts dispatched their callbacks in the other order
   | tryNode (upTo : Nat) (pkts : List SyncPkt)
-  | publicRand (via : Via) (wanted : Nat)   -- via ∈ {publicRand, proxyGet}
+  | publicRand (proxy : Bool) (wanted : Nat)
   | waiterTimeout
-  | serve (via : Via) (from_ : Nat)         -- via ∈ {syncChain, publicStream}
+  | serve (pub : Bool) (from_ : Nat)
   | stopStreams
 
 def Node.step (c : Crypto) (s : Node) : Ev → Node
   | .tick next => { s with nextRound := next }
-  | .setInfo g => { s with group := g }
+  | .setInfo g => { s with group := g, seen := s.seen ++ [g] }
   | .deliver p => (processPartial c s p).1
   | .own cur => { s with newPartials := s.newPartials ++ [ownPartial c s cur] }
   | .aggPartial => (aggPartial c s).1
@@ -418,9 +441,9 @@ def Node.step (c : Crypto) (s : Node) : Ev → Node
     | a :: b :: q => { s with storedQ := b :: a :: q }
     | _ => s
   | .tryNode upTo pkts => (tryNode c s upTo pkts).1
-  | .publicRand via wanted => (publicRand c s via wanted).1
+  | .publicRand proxy wanted => (publicRand c s proxy wanted).1
   | .waiterTimeout => { s with waiters := [] }
-  | .serve via from_ => (syncServe c s via from_).1
+  | .serve pub from_ => (syncServe c s pub from_).1
   | .stopStreams => { s with streams := [] }
 
 def Node.run (c : Crypto) (s : Node) (evs : List Ev) : Node := evs.foldl (Node.step c) s
